@@ -90,6 +90,10 @@ def s2(tier):
     for (o, c) in pairs(tier):
         for cs in four_argshapes(o, c):
             for ctx in grammar.CONTEXTS:
+                if ctx == 'ifelse_unres':
+                    # a second forwarding call whose callee cannot be resolved (and which takes nothing)
+                    out.append(Prog(o, (cs, CallSpec((), 0, (), cs.va, cs.vk)), ctx, 'global', None))
+                    continue
                 for route in grammar.ROUTES:
                     if ctx == 'result_attr' and route == 'partial':
                         continue        # a partial object has no attribute every callee result has
